@@ -823,7 +823,7 @@ impl File {
                 Stamp::from_metadata(&metadata)?,
             )),
             Err(e) => {
-                if e.kind() == io::ErrorKind::NotFound {
+                if is_not_there(&e) {
                     Ok((false, Stamp::MISSING))
                 } else {
                     Err(RedoError::opaque_error(e))
@@ -1441,7 +1441,7 @@ where
     } else {
         let mut buf = match dname.canonicalize() {
             Ok(path) => path,
-            Err(e) if e.kind() == io::ErrorKind::NotFound => {
+            Err(e) if is_not_there(&e) => {
                 let dname = if dname.is_absolute() {
                     dname
                 } else {
@@ -1458,6 +1458,12 @@ where
         buf.push(fname);
         Ok(Cow::Owned(buf))
     }
+}
+
+/// Reports whether `e` says that the path does not exist: NotFound, or ENOTDIR
+/// (something on the way to it is not, or no longer, a directory).
+fn is_not_there(e: &io::Error) -> bool {
+    e.kind() == io::ErrorKind::NotFound || e.raw_os_error() == Some(libc::ENOTDIR)
 }
 
 /// How many dangling symbolic links `resolve_existing_part` follows before giving up.
@@ -1481,7 +1487,7 @@ fn resolve_existing_part(dname: &Path, links_left: u32) -> io::Result<PathBuf> {
                         next.push(rest.as_path());
                         return match next.canonicalize() {
                             Ok(path) => Ok(path),
-                            Err(e) if e.kind() == io::ErrorKind::NotFound => {
+                            Err(e) if is_not_there(&e) => {
                                 resolve_existing_part(&next, links_left - 1)
                             }
                             Err(e) => Err(e),
@@ -1492,7 +1498,7 @@ fn resolve_existing_part(dname: &Path, links_left: u32) -> io::Result<PathBuf> {
                 real.push(rest.as_path());
                 return Ok(real);
             }
-            Err(e) if e.kind() == io::ErrorKind::NotFound => continue,
+            Err(e) if is_not_there(&e) => continue,
             Err(e) => return Err(e),
         }
     }
